@@ -105,6 +105,10 @@ def expr_cases(rng, tier):
     for _ in range(40):
         e = ("not", e)
     cases.append(dict(id="deep-not:40", e=e, rho={}, kind="deep"))
+    # niladic datetime value functions (outside mexpr: oracle and tie only), alone and as operands
+    for i, nm in enumerate(G.NILADIC):
+        cases.append(dict(id="niladic:%d" % i, e=("niladic", nm), rho={}, kind="neg"))
+        cases.append(dict(id="niladic-op:%d" % i, e=("bin", "<", ("ident", False, "a"), ("bin", "+", ("niladic", nm), ("num", "1"))), rho={(1, 0): 1}, kind="neg"))
     e = ("ident", False, "a")
     for _ in range(60):
         e = ("neg", "-", e)
@@ -210,6 +214,8 @@ def correspondence_cases(rng, tier, cases):
         texts.append(("depth:%d" % d, "( ( a + 1 ) ) * NOT b", d))
         texts.append(("depthf:%d" % d, "f ( CASE WHEN a THEN ( b ) END )", d))
         texts.append(("depthn:%d" % d, "a * - + - b", d))
+    for i, t in enumerate(["CURRENT_DATE", "current_time + 1", '"CURRENT_DATE"', "CURRENT_DATE . x", "CURRENT_TIMESTAMP ( )", "LOCALTIME [ 1 ]", "t . LOCALTIMESTAMP", "CURRENT_USER"]):
+        texts.append(("niladic:%d" % i, t, 0))
     return texts
 
 
